@@ -265,6 +265,17 @@ def execute(plan, zpool, op_timeout=30.0, on_event=None):
                     blob = r["ok"]["blob"]
                     store[op[1]] = blob
                     r = {"ok": {"sha": hashlib.sha1(blob.encode()).hexdigest()[:16], "len": len(blob)}}
+            elif name == "sendall":
+                r = z.op(["dumpall", None], op_timeout)
+                if "ok" in r and isinstance(r["ok"], dict) and "blob" in r["ok"]:
+                    store[op[1]] = r["ok"]["blob"]
+                    r = {"ok": {"n": r["ok"]["n"], "skipped": r["ok"]["skipped"], "len": len(r["ok"]["blob"])}}
+            elif name == "recvall":
+                blob = store.get(op[1])
+                if blob is None:
+                    r = {"skip": "noblob"}
+                else:
+                    r = z.op(["loadall", None, {"blob": blob}], op_timeout)
             elif name == "recv":
                 blob = store.get(op[2])
                 if blob is None:
